@@ -34,7 +34,7 @@ func sortPermutes(ex *Exec, st *State, reach *Term, s *Term, elem types.Type) {
 	jq := Sym("j!q", vc.IntSort())
 	off, n := vc.SliceOff(s), vc.SliceLen(s)
 	inb := func(i *Term) *Term { return And(vc.Cmp("<=", vc.IntConst(0), i, it), vc.Cmp("<", i, n, it)) }
-	at := func(a, i *Term) *Term { return Select(a, vc.Arith("+", off, i, it)) }
+	at := func(a, i *Term) *Term { return vc.SliceAt(a, off, i) }
 	vc.Assume(reach, Forall([]*Term{iq}, Implies(inb(iq), Exists([]*Term{jq}, And(inb(jq), Eq(at(nw, iq), at(old, jq)))))))
 	vc.Assume(reach, Forall([]*Term{jq}, Implies(inb(jq), Exists([]*Term{iq}, And(inb(iq), Eq(at(nw, iq), at(old, jq)))))))
 	// outside the slice window nothing changes
@@ -61,7 +61,7 @@ func (ex *Exec) variadicElems(st *State, arg Value, elem types.Type, instr ssa.I
 	arr := ex.sliceElems(st, elem, s)
 	var out []*Term
 	for i := int64(0); i < n.Int64(); i++ {
-		out = append(out, Select(arr, ex.vc.Arith("+", ex.vc.SliceOff(s), ex.vc.IntConst(i), intT())))
+		out = append(out, ex.vc.SliceAt(arr, ex.vc.SliceOff(s), ex.vc.IntConst(i)))
 	}
 	return out, true
 }
@@ -121,7 +121,7 @@ func init() {
 		iq := Sym("i!q", vc.IntSort())
 		xq := Sym("x!q", SInt)
 		inb := And(vc.Cmp("<=", vc.IntConst(0), iq, intT()), vc.Cmp("<", iq, vc.SliceLen(s), intT()))
-		at := Select(arr, vc.Arith("+", vc.SliceOff(s), iq, intT()))
+		at := vc.SliceAt(arr, vc.SliceOff(s), iq)
 		vc.Assume(reach, Forall([]*Term{iq}, Implies(inb, vc.SetOp("member", at, r))))
 		vc.Assume(reach, Forall([]*Term{xq}, Implies(vc.SetOp("member", xq, r), Exists([]*Term{iq}, And(inb, Eq(at, xq))))))
 		return r
